@@ -9,6 +9,7 @@ pub mod pager;
 pub mod parse;
 pub mod plan;
 pub mod pool;
+pub mod sched;
 pub mod tuple;
 pub mod txn;
 pub mod value;
